@@ -307,7 +307,7 @@ int main(int argc, char **argv)
 		for (int li = 0; li < N_SHAPE_LENS; li++)
 			for (int pat = 0; pat < PAT_N; pat++) {
 				int len = shape_lens[li];
-				if (pat != PAT_ZERO && pat != PAT_XS && pat != PAT_TEXT && pat != PAT_P3 && !(v_thorough && pat == PAT_P258))
+				if (pat != PAT_ZERO && pat != PAT_XS && pat != PAT_TEXT && pat != PAT_LOG && pat != PAT_P3 && !(v_thorough && pat == PAT_P258))
 					continue;
 				uint64_t id = unit++;
 				if (!v_mine(id))
@@ -379,6 +379,29 @@ int main(int argc, char **argv)
 						SE_HUFF_TYPE = 0; SE_HUFFTABLES = NULL;
 					}
 				}
+	}
+	if (!v_part || !strcmp(v_part, "termination")) {
+		/* (ii-a) long inputs: a call that ends with the output full (tokens / look-ahead pending inside the codec) followed by a call that
+		 * presents only 0 / 1 / 7 / 300 more bytes: termination and exact bookkeeping for every level-buffer size */
+		static uint8_t *B;
+		static const int cpus[] = { CPU_BASE, CPU_SSE, CPU_AVX2, CPU_AVX512G2 };
+		if (!B)
+			B = malloc(150000);
+		SE_REQUIRE_PROGRESS = 1;
+		uint64_t unit = 500;
+		for (int kind = 0; kind < 2; kind++)
+			for (int level = 0; level <= 3; level++)
+				for (int lbi = 0; lbi < 4; lbi++) {
+					if (level == 0 && lbi)
+						continue;
+					if (!v_mine(unit++))
+						continue;
+					if (nfail > 20 || v_deadline_hit())
+						break;
+					if (kind) fill_mixed(B, 150000, 23); else fill_pattern(B, 150000, PAT_LOG, 24);
+					def_big_then_tiny(B, 150000, kind ? "mixed" : "log", level, (level + lbi) % 2 ? IGZIP_GZIP : IGZIP_DEFLATE, cpus[(level + lbi + kind + 1) % 4], lbi);
+				}
+		SE_REQUIRE_PROGRESS = 0;
 	}
 	if (!v_part || !strcmp(v_part, "space")) {
 		/* (ii-b) the output-space half of the contract on the streaming API when the input arrives in SEVERAL pieces (end_of_stream
